@@ -132,6 +132,17 @@ def r02_sched_agree(repo, sink, tier="quick"):
             sink.bad("R02", key, f, f"{e.name} ({e.kind}): {why}")
         elif not why:
             sink.ok("R02", key, f, f"{e.name} is walked as {e.kind}")
+    # adapters are recognised by the public interfaces (ITimeDelayAdapter, NoDependencyAdapter), not by the SDK base classes: a
+    # third-party adapter that implements only the interface shifts / cuts the dependency like the library ones
+    for label, kind in (("<interface-only delay adapter>", lek.DELAY), ("<interface-only no-dependency delay adapter>", lek.BREAK)):
+        try:
+            paths, out, dnames = _run_walk(repo, [label], True)
+        except Undecided as u:
+            raise AnalysisError(f"_find_dependencies: condition outside the walk vocabulary: {u}") from u
+        tau = data_path_term([kind], dnames, Sym("t"))
+        why = _judge_walk(paths, out, tau, True)
+        sink.check(not why, "R02", f"walk-interface:{kind}", f, ok=f"an adapter that implements only the interface is walked as {kind}",
+                   bad=f"an adapter implementing only the public interface ({label[1:-1]}) is not treated as {kind}: {why}")
     # static outputs never create a dependency
     paths, out, _ = _run_walk(repo, [], True, static_out=True)
     bad = [1 for _d, (k, v) in paths if k != "ret" or (isinstance(v, dict) and out in v)]
@@ -1205,6 +1216,9 @@ def r05s_run_selection(repo, sink):
         "last-below-end-finishes-early": ({"A": dict(t=0, step=1, finish_at=3), "B": dict(t=0, step=10)}, 8),
         "single-component-finishes-early": ({"A": dict(t=0, step=2, finish_at=4)}, 9),
         "listed-in-reverse": ({"C": dict(t=4, step=2), "B": dict(t=2, step=2), "A": dict(t=0, step=5)}, 10),
+        # the composition starts (time 0) before its components do; the end time lies after the start but before every component
+        "all-beyond-the-end-from-the-start": ({"A": dict(t=10, step=1), "B": dict(t=12, step=2)}, 5),
+        "some-beyond-the-end-from-the-start": ({"A": dict(t=10, step=1), "B": dict(t=2, step=2)}, 6),
     }
     worst, steps = None, 0
     for name, (spec, end) in scenarios.items():
